@@ -4,7 +4,7 @@
    jdapimin.c), model/CopyMarkers.v (transupp.c, tj3Transform); constants: gen/GenIccConst.v. *)
 From Coq Require Import List ZArith Bool Permutation.
 From LJT Require Import lib.Sweep gen.GenIccConst model.MarkerRT model.Icc model.CopyMarkers model.TjHeader
-  proofs.TjProofs proofs.C16Consts proofs.IccProofs proofs.IccRoundTrip proofs.MarkerProofs proofs.CopyProofs proofs.HeaderProofs.
+  proofs.TjProofs proofs.C16Consts proofs.IccProofs proofs.IccRoundTrip proofs.IccFast proofs.MarkerProofs proofs.CopyProofs proofs.HeaderProofs.
 Import ListNotations.
 Local Open Scope Z_scope.
 
@@ -77,6 +77,11 @@ Theorem C16_icc_read_closed_form : forall junk ms srt n,
   read_icc_with junk ms = IccOk (concat (map icc_payload srt)).
 Proof. exact read_icc_closed. Qed.
 Print Assumptions C16_icc_read_closed_form.
+
+(* the closed-form reader used by the extracted model on very long profiles is the same function *)
+Theorem C16_icc_read_fast_correct : forall junk ms, read_icc_with junk ms = read_icc_fast ms.
+Proof. exact read_icc_fast_correct. Qed.
+Print Assumptions C16_icc_read_fast_correct.
 
 (* ---- (3) damaged numberings: duplicate, inconsistent count, sequence number 0 or > count, missing *)
 Theorem C16_icc_rejects_bad : forall junk ms,
